@@ -354,6 +354,33 @@ fn site(cx: &mut CaseCtx, s: u64) {
                 refuse(cx, name, format!("{} 16-byte nodes (image would reach {} bytes)", n, 48 + 16 * n), || build(n, false).0);
             }
             refuse(cx, name, "4092 nodes then a 24-byte endpoint (65544 bytes)".into(), || build(4092, true).0);
+            // one translation node followed by nodes that hand out no handle: the image (and, far
+            // enough, the 16-bit node count) still outgrows the 16-bit fields
+            let build_eps = |n: usize, pci: bool| -> Vec<u8> {
+                let mut t = viot::VIOT::new(H.0, H.1, H.2);
+                let h = t.add_virtio_pci_iommu(viot::VirtIoPciIommu::new(viot::PciDevice::new(0, 0, 1, 0)));
+                for i in 0..n {
+                    if pci {
+                        t.add_pci_range(viot::PciRange::new(viot::PciDevice::new(0, 0, 0, 0), viot::PciDevice::new(0, 255, 31, 7), &h));
+                    } else {
+                        t.add_mmio_endpoint(viot::MmioEndpoint::new(i as u32, 0x1000, &h));
+                    }
+                }
+                let mut v = to_vec(&t);
+                v.truncate(64);
+                v
+            };
+            for (n, pci) in [(2728usize, false), (2729, true), (3000, false), (65_535, true), (65_536, false), (70_001, true)] {
+                refuse(cx, name, format!("1 IOMMU + {} {} nodes (image would reach {} bytes)", n, if pci { "PCI-range" } else { "MMIO-endpoint" }, 64 + 24 * n), || build_eps(n, pci));
+            }
+            accept(cx, name, "1 IOMMU + 2727 endpoints (65512 bytes)".into(), || {
+                let mut t = viot::VIOT::new(H.0, H.1, H.2);
+                let h = t.add_virtio_mmio_iommu(viot::VirtIoMmioIommu::new(7));
+                for i in 0..2727 {
+                    t.add_mmio_endpoint(viot::MmioEndpoint::new(i, 0x2000, &h));
+                }
+                walk_ok(Kind::Viot, &to_vec(&t), 2728)
+            });
         }
         14 => {
             let name = "SLIT locality count (N^2 in a u32 table length)";
